@@ -116,6 +116,27 @@ def lazy_labels(fixture_schema, lazy_calls, preds):
     return {"build": "ok", "labels": labels_of(schema)}
 
 
+_OBSERVED = [0]
+
+
+def coverage_targets(schema):
+    """which (METHOD path) the coverage phase would send requests to, per offered operation: the labels of the cases
+    `_iter_coverage_cases` builds in negative mode (the 'unspecified HTTP method' block uses other methods on the same path)"""
+    from schemathesis.generation import GenerationMode
+    from schemathesis.generation.hypothesis.builder import _iter_coverage_cases
+    out = []
+    for r in schema.get_all_operations():
+        if not isinstance(r, Ok):
+            continue
+        op = r.ok()
+        try:
+            targets = sorted({f"{c.method.upper()} {op.path}" for c in _iter_coverage_cases(op, [GenerationMode.NEGATIVE], None)})
+        except Exception as e:  # noqa: BLE001
+            targets = [f"raises:{type(e).__name__}"]
+        out.append([op.label, targets])
+    return out
+
+
 def observe(base, calls, preds, lazy_calls=None, machine=True):
     schema, st = apply_calls(base, calls, preds)
     if schema is None:
@@ -130,6 +151,9 @@ def observe(base, calls, preds, lazy_calls=None, machine=True):
 
     schema.parametrize()(test)
     out["parametrize"] = labels_of(SchemaHandleMark.get(test))
+    _OBSERVED[0] += 1
+    if _OBSERVED[0] % 5 == 0:
+        out["coverage"] = coverage_targets(schema)
     if machine:
         out["trans"], out["rules"] = machine_of(schema)
     if lazy_calls is not None:
@@ -262,6 +286,16 @@ def judge(chk, case: Case, programs, mechanism, reg, variants, machine=True):
             mr = None if m["rules"] is None else normalize_rule_names(m["rules"])
             compare(chk, "state_machine_rules", replay, mr, impl["rules"])
         # ---- replay: the specification judges what the implementation did -----------------------------------------
+        documented = {f["name"] for f in case.facts}
+        for label, targets in impl.get("coverage", []):
+            chk.feature("coverage-targets:observed")
+            for t in targets:
+                if t != label and t in documented:
+                    chk.violation("C07:coverage:request-to-a-documented-operation-other-than-the-one-under-test",
+                                  f"the coverage cases built for {label} include a request {t}: a documented operation "
+                                  f"({'selected' if t in expected else 'NOT selected by the filters'}) is exercised as an "
+                                  "'unspecified method' of its own path",
+                                  {**replay, "operation": label, "target": t, "expected": expected})
         if impl["all"] != expected:
             chk.violation("C07:get_all_operations:offered-differs-from-selection",
                           f"get_all_operations offers {impl['all']} but the filters select {expected}",
